@@ -387,3 +387,159 @@ Proof.
     + destruct (r_if r) as [l|]; auto. apply forallb_forall. intros d I. eapply C; eauto.
     + destruct (r_unless r) as [l|]; auto. apply forallb_forall. intros d I. eapply D; eauto.
 Qed.
+
+(* ================================================================== printer output is in the Safari subset *)
+Lemma srun_app s a b : srun s (a ++ b) = srun (srun s a) b.
+Proof. unfold srun. apply fold_left_app. Qed.
+
+Lemma not_meta_eqb c x : memN c safari_meta = false -> In x safari_meta -> N.eqb c x = false.
+Proof.
+  intros H I. destruct (N.eqb c x) eqn:E; [|reflexivity].
+  apply N.eqb_eq in E. subst. apply memN_In in I. congruence.
+Qed.
+
+Local Ltac inmeta := cbn [In safari_meta]; repeat (first [left; reflexivity | right]).
+
+Lemma nonmeta_step_top g gi q c :
+  memN c safari_meta = false -> sstep (STop g gi q) c = STop g true true.
+Proof.
+  intros H. unfold sstep.
+  rewrite (not_meta_eqb c BSL H) by inmeta. rewrite (not_meta_eqb c DOT H) by inmeta.
+  rewrite (not_meta_eqb c LBR H) by inmeta. rewrite (not_meta_eqb c LPAR H) by inmeta.
+  rewrite (not_meta_eqb c RPAR H) by inmeta. rewrite (not_meta_eqb c STAR H) by inmeta.
+  rewrite (not_meta_eqb c PLUS H) by inmeta. rewrite (not_meta_eqb c QM H) by inmeta.
+  rewrite (not_meta_eqb c DOLLAR H) by inmeta. rewrite H. reflexivity.
+Qed.
+
+Lemma nonmeta_step_cls (s : sst) g c :
+  (s = SClsNeg g \/ s = SClsBody g \/ s = SClsOpen g) ->
+  memN c safari_meta = false -> sstep s c = SClsBody g.
+Proof.
+  intros S H. destruct S as [->|[->| ->]]; unfold sstep;
+    try rewrite (not_meta_eqb c RBR H) by inmeta; try rewrite (not_meta_eqb c CARET H) by inmeta;
+    rewrite (not_meta_eqb c BSL H) by inmeta; rewrite H; reflexivity.
+Qed.
+
+Lemma lit_meta c : lit_ok c = true -> memN c safari_meta = is_special c.
+Proof.
+  unfold lit_ok. intros H. rewrite meta_special. apply negb_true_iff in H. rewrite H. apply orb_false_r.
+Qed.
+
+Lemma srun_print_lit g gi q c :
+  lit_ok c = true -> srun (STop g gi q) (print_lit c) = STop g true true.
+Proof.
+  intros H. pose proof (lit_meta c H) as M. unfold print_lit. destruct (is_special c).
+  - cbn [srun fold_left]. change (sstep (STop g gi q) BSL) with (SEsc g). unfold sstep. rewrite M. reflexivity.
+  - cbn [srun fold_left]. apply nonmeta_step_top. exact M.
+Qed.
+
+Lemma srun_print_lit_cls g c :
+  lit_ok c = true -> srun (SClsNeg g) (print_lit c) = SClsBody g.
+Proof.
+  intros H. pose proof (lit_meta c H) as M. unfold print_lit. destruct (is_special c).
+  - cbn [srun fold_left]. change (sstep (SClsNeg g) BSL) with (SClsEsc g). unfold sstep. rewrite M. reflexivity.
+  - cbn [srun fold_left]. apply (nonmeta_step_cls _ g); auto.
+Qed.
+
+Lemma srun_print_atom g gi q a :
+  atom_wf a = true -> srun (STop g gi q) (print_atom a) = STop g true true.
+Proof.
+  destruct a as [c| |c]; cbn [atom_wf print_atom]; intros H.
+  - apply srun_print_lit. exact H.
+  - reflexivity.
+  - change ([LBR; CARET] ++ print_lit c ++ [RBR]) with (LBR :: CARET :: (print_lit c ++ [RBR])).
+    cbn [srun fold_left]. change (sstep (sstep (STop g gi q) LBR) CARET) with (SClsNeg g).
+    fold (srun (SClsNeg g) (print_lit c ++ [RBR])). rewrite srun_app, srun_print_lit_cls by exact H.
+    reflexivity.
+Qed.
+
+Lemma srun_print_quant g gi q :
+  exists q', srun (STop g gi true) (print_quant q) = STop g gi q'.
+Proof. destruct q; eexists; reflexivity. Qed.
+
+Lemma srun_print_qatom g gi q x :
+  atom_wf (fst x) = true -> exists q', srun (STop g gi q) (print_qatom x) = STop g true q'.
+Proof.
+  intros H. unfold print_qatom. rewrite srun_app, srun_print_atom by exact H. apply srun_print_quant.
+Qed.
+
+Lemma srun_group_items g l : forall gi q,
+  forallb (fun x => atom_wf (fst x)) l = true ->
+  exists q', srun (STop g gi q) (flat_map print_qatom l) = STop g (if is_nil l then gi else true) q'.
+Proof.
+  induction l as [|x l IH]; intros gi q H.
+  - eexists. reflexivity.
+  - cbn [forallb] in H. apply andb_true_iff in H as [H1 H2]. cbn [flat_map is_nil].
+    rewrite srun_app. destruct (srun_print_qatom g gi q x H1) as [q1 ->].
+    destruct (IH true q1 H2) as [q2 E]. exists q2. rewrite E. destruct l; reflexivity.
+Qed.
+
+Lemma srun_print_item gi q i :
+  item_wf i = true -> exists gi' q', srun (STop false gi q) (print_item i) = STop false gi' q'.
+Proof.
+  destruct i as [a qq|g]; cbn [item_wf print_item]; intros H.
+  - destruct (srun_print_qatom false gi q (a, qq) H) as [q' E]. eauto.
+  - apply andb_true_iff in H as [H1 H2].
+    change ([LPAR] ++ flat_map print_qatom g ++ [RPAR; QM]) with (LPAR :: (flat_map print_qatom g ++ [RPAR; QM])).
+    cbn [srun fold_left]. change (sstep (STop false gi q) LPAR) with (STop true false false).
+    fold (srun (STop true false false) (flat_map print_qatom g ++ [RPAR; QM])).
+    rewrite srun_app. destruct (srun_group_items true g false false H2) as [q' ->].
+    destruct g; [discriminate|]. cbn [is_nil]. eexists _, _. reflexivity.
+Qed.
+
+Lemma srun_print_items l : forall gi q,
+  forallb item_wf l = true ->
+  exists gi' q', srun (STop false gi q) (flat_map print_item l) = STop false gi' q'.
+Proof.
+  induction l as [|i l IH]; intros gi q H.
+  - eexists _, _. reflexivity.
+  - cbn [forallb] in H. apply andb_true_iff in H as [H1 H2]. cbn [flat_map]. rewrite srun_app.
+    destruct (srun_print_item gi q i H1) as (gi1 & q1 & ->). apply IH. exact H2.
+Qed.
+
+Lemma print_item_head i : item_wf i = true -> exists c r, print_item i = c :: r /\ N.eqb c CARET = false.
+Proof.
+  destruct i as [a q|g]; cbn [item_wf print_item]; intros H.
+  - unfold print_qatom. cbn [fst snd]. destruct a as [c| |c]; cbn [print_atom atom_wf] in *.
+    + unfold print_lit. destruct (is_special c) eqn:S; cbn [app].
+      * eexists _, _. split; reflexivity.
+      * eexists _, _. split; [reflexivity|]. destruct (N.eqb c CARET) eqn:E; [|reflexivity].
+        apply N.eqb_eq in E. subst. rewrite caret_special in S. discriminate.
+    + cbn [app]. eexists _, _. split; reflexivity.
+    + cbn [app]. eexists _, _. split; reflexivity.
+  - cbn [app]. eexists _, _. split; reflexivity.
+Qed.
+
+Lemma srun_tail_accept gi q (e : bool) :
+  saccept (srun (STop false gi q) (if e then [DOLLAR] else [])) = true.
+Proof. destruct e; reflexivity. Qed.
+
+Theorem printer_subset r : regex_wf r = true -> safari_ok (print_regex r) = true.
+Proof.
+  unfold regex_wf. intros H. apply andb_true_iff in H as [W NE].
+  destruct r as [st body en]. cbn [rx_body] in W. unfold print_regex in *. cbn [rx_start rx_body rx_end] in *.
+  destruct st.
+  - cbn [app safari_ok]. rewrite N.eqb_refl. unfold top0.
+    rewrite srun_app. destruct (srun_print_items body false false W) as (gi & q & ->). apply srun_tail_accept.
+  - cbn [app] in *. destruct body as [|i body].
+    + cbn [flat_map app] in *. destruct en; [reflexivity|discriminate].
+    + assert (W' := W). cbn [forallb] in W'. apply andb_true_iff in W' as [W1 W2].
+      destruct (print_item_head i W1) as (c & t & E & C).
+      assert (X : exists t', flat_map print_item (i :: body) ++ (if en then [DOLLAR] else []) = c :: t').
+      { cbn [flat_map]. rewrite E. cbn [app]. eexists. reflexivity. }
+      destruct X as [t' X]. unfold safari_ok. rewrite X, C. rewrite <- X. unfold top0.
+      rewrite srun_app. destruct (srun_print_items (i :: body) false false W) as (gi & q & ->).
+      apply srun_tail_accept.
+Qed.
+
+(* every literal metacharacter is escaped, every other literal is printed as itself *)
+Theorem printer_escapes c :
+  (In c safari_meta -> c <> STAR -> print_atom (ALit c) = [BSL; c]) /\
+  (~ In c safari_meta -> print_atom (ALit c) = [c]).
+Proof.
+  cbn [print_atom]. unfold print_lit. split.
+  - intros I NS. apply special_table_ok in I. destruct I as [I|I]; [congruence|].
+    apply memN_In in I. unfold is_special. rewrite I. reflexivity.
+  - intros NI. unfold is_special. destruct (memN c cb_special_chars) eqn:E; [|reflexivity].
+    exfalso. apply NI. apply special_table_ok. right. apply memN_In. exact E.
+Qed.
